@@ -92,6 +92,13 @@ func (vm *VotingMachine) verifyCert(cert hotstuff.PartialCert, block *hotstuff.B
 		vm.logger.Infof("vote could not be verified: %v", err)
 		return
 	}
+	// A vote carries the signature of exactly one replica. A multi-signature would be filed under its
+	// first signer only, and its other signers would later make Combine fail with overlapping
+	// signatures on every attempt, so that no QC could be created for this block anymore.
+	if n := cert.Signature().Participants().Len(); n != 1 {
+		vm.logger.Infof("vote ignored: expected a single signer, got %d", n)
+		return
+	}
 	vm.mut.Lock()
 	defer vm.mut.Unlock()
 	// this defer will clean up any old votes in verifiedVotes
